@@ -14,6 +14,17 @@ type Style struct {
 	UpperProp bool `json:"upperProp"` // property names in upper case
 	Comments  bool `json:"comments"`  // sprinkle comments
 	ImpSpace  bool `json:"impSpace"`  // `! important`
+	Escapes   bool `json:"escapes"`   // simple selectors spelled with CSS escapes
+	Noise     bool `json:"noise"`     // @charset/@keyframes/@font-face/@page between the top-level rules
+}
+
+var escaped = map[string]string{".a": ".\\61 ", ".b": ".\\000062", "#s": "#\\73 ", "p": "\\70 ", ".c": ".\\63 ", "div": "d\\69v"}
+
+var noise = []string{
+	"@keyframes k{from{top:0;color:red}to{top:1px;color:blue}}",
+	"@font-face{font-family:\"F\";src:local(\"F\")}",
+	"@page{margin:1px}",
+	"@property --p{syntax:\"<length>\";inherits:false;initial-value:0px}",
 }
 
 func (v *Vocab) atomText(a AtomRef) string {
@@ -137,6 +148,7 @@ func (v *Vocab) Render(items []Item, st Style) string {
 		}
 	}
 	ncomment := 0
+	nnoise := 0
 	needSemi := false
 	for _, it := range items {
 		limit := len(it.Path)
@@ -159,7 +171,17 @@ func (v *Vocab) Render(items []Item, st Style) string {
 			if st.Compact {
 				sp = ""
 			}
-			sb.WriteString(indent(len(open)) + v.openText(it.Path[k]) + sp + "{" + nl)
+			txt := v.openText(it.Path[k])
+			if st.Escapes && it.Path[k].T == "sel" {
+				if e, ok := escaped[txt]; ok {
+					txt = e
+				}
+			}
+			if st.Noise && len(open) == 0 && nnoise < 2 && (len(sb.String())+k)%3 == 0 {
+				sb.WriteString(noise[(len(sb.String())+nnoise)%len(noise)] + "\n")
+				nnoise++
+			}
+			sb.WriteString(indent(len(open)) + txt + sp + "{" + nl)
 			open = append(open, it.Path[k])
 		}
 		if it.K == "layer" {
